@@ -130,7 +130,6 @@ impl Prop for C05T {
             match e {
                 Ev::WFail => nontrivial = true,
                 Ev::Err(microscpi::Error::TooMuchData) | Ev::Err(microscpi::Error::SystemError) => {
-                    st.bump("reach:response_did_not_fit");
                     nontrivial = true
                 }
                 Ev::TRead { room, ok: true, .. } if *room < ex.n => nontrivial = true,
